@@ -185,7 +185,9 @@ Qed.
 Lemma st_create_table_c a b name fds : seqc a b ->
   res_rel (st_create_table a name fds) (st_create_table b name fds).
 Proof.
-  intros H. pose proof (sc_seq _ _ H) as S. unfold st_create_table. rewrite (seq_rel_offset a b _ S).
+  intros H. pose proof (sc_seq _ _ H) as S. unfold st_create_table.
+  destruct (names_distinct _); [|apply res_rel_same; exact H]. unfold st_create_table0.
+  rewrite (seq_rel_offset a b _ S).
   destruct (rel_offset b name) as [o|e|]; try (apply res_rel_same; exact H).
   destruct e; try (apply res_rel_same; exact H).
   destruct (create_page_c a b H) as [S1 R1].
